@@ -31,7 +31,7 @@ def summarize(out):
 
 
 def verify(pid):
-    d = "/tmp/seed/%s/deliver" % pid
+    d = "%s/%s/deliver" % (os.environ.get("SEED_DIR", "/tmp/seed"), pid)
     if not os.path.isdir(d):
         print(pid, "no deliver dir"); return
     try:
@@ -43,7 +43,7 @@ def verify(pid):
     if not muts:
         muts = [{"patch": "mutant%d.diff" % i, "demo": "demo%d.rs" % i} for i in (1, 2) if os.path.exists(os.path.join(d, "mutant%d.diff" % i))]
     head = subprocess.run("git -C /repo rev-parse --short HEAD", shell=True, stdout=subprocess.PIPE, text=True).stdout.strip()
-    for i, m in enumerate(muts, 1):
+    for i, m in enumerate(muts, 1 + int(os.environ.get("SEED_OFFSET", "0"))):
         patch = os.path.join(d, m["patch"]); demo = os.path.join(d, m["demo"])
         name = "%s-%d" % (pid, i)
         reset()
